@@ -64,7 +64,29 @@ def case_strategy(draw, tier):
     elif op == "short_tip":
         case["thre_sel"] = draw(st.integers(0, 10 ** 6))
         case["thre_mul"] = draw(st.sampled_from([0.5, 0.9, 1.0, 1.1, 2.0, 100.0]))
+    # transform objects (Cut*) may have been used on another tree before
+    case["reused"] = draw(st.integers(0, 2)) == 0
     return case
+
+
+def _decoy_tree():
+    """A small tree every Cut* transform has something to do on (used to 'wear in' a transform object)."""
+    from swcgeom.core import Tree
+
+    pid = np.array([-1, 0, 1, 1, 0, 4, 4, 6], dtype=np.int32)
+    n = len(pid)
+    return Tree(n, id=np.arange(n, dtype=np.int32), pid=pid, type=np.array([1, 2, 2, 3, 3, 3, 2, 3], dtype=np.int32),
+                x=np.arange(n, dtype=np.float32), y=np.array([0, 1, 2, 0, -1, -2, -1, -3], dtype=np.float32),
+                z=np.zeros(n, dtype=np.float32), r=np.ones(n, dtype=np.float32),
+                tag=np.arange(900, 900 + n, dtype=np.int32), w=np.zeros(n, dtype=np.float32))
+
+
+def _worn(tr, case, ctx):
+    if case.get("reused"):
+        tr(_decoy_tree())
+        tr(_decoy_tree())
+        ctx.cls("transform-object-reused")
+    return tr
 
 
 def _float_len(xyz32, a, b):
@@ -264,7 +286,7 @@ def run_case(case, ctx):
     elif op in ("by_type", "axon", "dendrite"):
         ty = case["type"] if op == "by_type" else 2 if op == "axon" else 3
         tr = CutByType(ty) if op == "by_type" else CutAxonTree() if op == "axon" else CutDendriteTree()
-        out = tr(tree)
+        out = _worn(tr, case, ctx)(tree)
         of_type = {i for i in range(n) if t["type"][i] == ty}
         surv = set(of_type)
         for i in of_type:
@@ -274,7 +296,7 @@ def run_case(case, ctx):
         _verify(ctx, t, out, surv, op)
     elif op == "furcation_order":
         k = case["k"]
-        out = CutByFurcationOrder(k)(tree)
+        out = _worn(CutByFurcationOrder(k), case, ctx)(tree)
         level = {}
         for i in models.topo_order(parents):
             if parents[i] == -1:
@@ -294,7 +316,9 @@ def run_case(case, ctx):
             thre = 5.0 * case["thre_mul"]
         ambiguous = [tb for tb in tbs if abs(tb[2] - thre) <= 1e-4 * max(thre, 1e-6)]
         cb_calls = []
-        out = CutShortTipBranch(thre, callback=lambda br: cb_calls.append([int(v) for v in br.origin_id()]))(tree)
+        cutter = _worn(CutShortTipBranch(thre, callback=lambda br: cb_calls.append([int(v) for v in br.origin_id()])), case, ctx)
+        cb_calls.clear()
+        out = cutter(tree)
         removed_min, removed_max = set(), set()
         expect_cb_min, expect_cb_max = [], []
         for tb in tbs:
@@ -343,5 +367,5 @@ SUBCHECKS = [
         required={**{"op:" + o: 60 for o in OPS}, "empty-result": 20, "type-absent": 10,
                   "short_tip:removes": 20, "permuted": 200,
                   "mapping:container-reused-from-an-earlier-call": 30, "mapping:container-prefilled": 30,
-                  "removals-as:generator": 10, "removals-as:iter": 10, "removals-as:chain": 10, "removals-as:ndarray": 10}),
+                  "transform-object-reused": 100, "removals-as:generator": 10, "removals-as:iter": 10, "removals-as:chain": 10, "removals-as:ndarray": 10}),
 ]
